@@ -177,6 +177,17 @@ def random_case(r):
     data = random_data(r, kws)
     if r.random() < 0.1:
         data = r.choice(kws)
+    elif r.random() < 0.02:
+        # long data with occurrences right at block boundaries (4 KiB, 64 KiB, 128 KiB), delimited and not
+        k = r.choice(kws)
+        size = r.choice([5000, 70000, 140000])
+        buf = bytearray(r.choice([b" ", b"a", b"-", b"1"]) * size)
+        for pos in (4096, 8192, 65536, 131072):
+            for d in (-len(k), -1, 0, 1):
+                p = pos + d
+                if 0 <= p and p + len(k) <= size and r.random() < 0.5:
+                    buf[p:p + len(k)] = k if r.random() < 0.7 else k.swapcase()
+        data = bytes(buf)
     elif r.random() < 0.03:
         # thousands of consecutive occurrences that are not delimited (a run of one keyword), then a delimited one
         k = r.choice(kws)
@@ -232,7 +243,12 @@ def make_kw_dir(r, d):
             if not os.path.exists(os.path.join(d, sub, prev)):
                 name = prev
         kws = [k for k in (rand_kw(r) for _ in range(r.randint(0, 4)))]
-        kws = [k for k in kws if k.strip(b"\x0b\x0c\x1c\x1d\x1e\x85") == k and not any(c in k for c in b"\x0b\x0c\x1c\x1d\x1e\x85")]
+        if r.random() < 0.25:
+            # bytes that only a text-mode reader would take for line ends (VT, FF, FS, GS, RS, NEL, LS, PS) are ordinary
+            # bytes of a keyword line; so is a byte order mark at the start of the file
+            kws.append(rand_kw(r)[:3] + r.choice([b"\x0b", b"\x0c", b"\x1c", b"\x1d", b"\x1e", b"\xc2\x85", b"\xe2\x80\xa8", b"\xe2\x80\xa9", b"\x85"]) + b"zq")
+            if r.random() < 0.3:
+                kws.insert(0, b"\xef\xbb\xbfbomword")
         if kws and r.random() < 0.3:
             kws.append(kws[0])  # duplicate
         if kws and r.random() < 0.3:
